@@ -152,9 +152,18 @@ CLAIMED = {
         "or fail close, for every text, every device and every split k of the text between writes during "
         "config_write and the final flush: success is reported iff the open succeeded, the whole text fitted, the "
         "requested fsync succeeded and the close succeeded; on success the file content is exactly the config_write "
-        "text and the error type is none; otherwise CONFIG_FALSE with an I/O error. Tied to /repo by fault "
+        "text and the error type is none; otherwise CONFIG_FALSE with an I/O error. A second, finer model "
+        "(StdioModel.v / StdioFacts.v: a buffered stream of any buffer size with a sticky error indicator over a device "
+        "whose write(2) calls succeed, are partial or fail by an ARBITRARY schedule, so a failure may be transient) "
+        "carries C12_stdio_success_complete (success => the file holds the whole text, nothing dropped), "
+        "C12_stdio_success_iff (success iff no write call failed, the requested fsync and the close succeeded), "
+        "C12_stdio_no_fail (partial writes lose nothing) and C12_stdio_variants_refuted (trusting fflush, skipping the "
+        "ferror check under FSYNC, or trusting fclose alone reports success for a file that lost bytes). Tied to /repo by fault "
         "enumeration on the real function: RLIMIT_FSIZE at boundary sizes, fsync/fclose/fopen forced to fail "
-        "(--wrap), missing directory, fsync option off/on, read-back of the written file.",
+        "(--wrap), missing directory, fsync option off/on, read-back of the written file; and by ONE transient write "
+        "failure on the real function (harness op writeft: the file size limit fails one write of stdio's, SIGXFSZ "
+        "lifts it, every later write, flush, fsync and close succeed): the call must return CONFIG_FALSE with "
+        "CONFIG_ERR_FILE_IO.",
    note="Assumed stdio contract: a push the device does not take completely sets the error indicator or makes the "
         "fflush/fclose performing it return EOF. C++ Config::writeFile throws FileIOException from the same return value (C17).",
    technique="Coq proof (case analysis over the device/stream model, arithmetic by lia) + fault-injection correspondence",
